@@ -782,6 +782,9 @@ func (s *c08rStore) chain(key, hash string) (string, bool) {
 func c08RaceChild(args []string) {
 	atoi := func(s string) int { n, _ := strconv.Atoi(s); return n }
 	seed, nC, nR, perRun, nKeys, millis := int64(atoi(args[0])), atoi(args[1]), atoi(args[2]), atoi(args[3]), atoi(args[4]), atoi(args[5])
+	if lim := scCapPerKey * 3 / 5; perRun > lim {
+		perRun = lim // stay inside the per-key capacity: evictions are the C06 capacity finding, not a concurrency failure
+	}
 	deadline := time.Now().Add(time.Duration(millis) * time.Millisecond)
 	var failMu sync.Mutex
 	fails := 0
